@@ -45,3 +45,16 @@ def structB (nodes : List NType) (n : Nat) : Bool :=
 def wfB (nodes : List NType) (n : Nat) : Bool := structB nodes n && detB nodes n
 
 end Ddnnf
+
+namespace Ddnnf
+
+/-- no or-node has a `True` child and the root is not `True` (side conditions of the enumeration theorems) -/
+def noTruUnderOrB (nodes : List NType) : Bool :=
+  nodes.all fun nd => match nd with
+    | .or cs => cs.all fun c => nodes.getD c .fls != .tru
+    | _ => true
+
+def enumOkB (nodes : List NType) : Bool :=
+  topoB nodes && noTruUnderOrB nodes && (nodes.getLast? != some .tru) && !nodes.isEmpty
+
+end Ddnnf
